@@ -420,3 +420,12 @@ package chord
 //@   ensures v.kvWrites == old(v.kvWrites)
 //@ interface (v VNode) PrefixList(ctx context.Context, prefix []byte) (children [][]byte, err error)
 //@   ensures v.kvWrites == old(v.kvWrites)
+// the same operations through the narrower KV interface (spec/tun helpers take a chord.KV)
+//@ interface (v KV) Put(ctx context.Context, key []byte, value []byte) (err error)
+//@   modifies v.kvWrites
+//@   ensures v.kvWrites == old(v.kvWrites) + 1
+//@ interface (v KV) Delete(ctx context.Context, key []byte) (err error)
+//@   modifies v.kvWrites
+//@   ensures v.kvWrites == old(v.kvWrites) + 1
+//@ interface (v KV) Get(ctx context.Context, key []byte) (value []byte, err error)
+//@   ensures v.kvWrites == old(v.kvWrites)
